@@ -458,7 +458,7 @@ func genC07(g *Gen) {
 	}
 
 	// (4) strings stored as settings under VarExp, read through every getter
-	vpieces := []string{"${}", "${:x}", "${a}", "${y}", "${a:${}}", "${l.0}", "pre ", "$", "{", "}", ":", "+", "?", "a", "b", ".", "0", "-1", " ", "$$", "${", "x", "\x00", "99999999999999999999", "l", "[", "]", ","}
+	vpieces := []string{"${}", "${:x}", "${a}", "${y}", "${s}", "${s.x}", "${t.x}", "${s.1}", "${s.x:d}", "${t}", "${a:${}}", "${l.0}", "pre ", "$", "{", "}", ":", "+", "?", "a", "b", ".", "0", "-1", " ", "$$", "${", "x", "\x00", "99999999999999999999", "l", "[", "]", ","}
 	for i := 0; i < n; i++ {
 		k := 1 + r.Intn(9)
 		var b strings.Builder
@@ -483,6 +483,51 @@ func genC07(g *Gen) {
 			return c.Unpack(&m, opts...)
 		})
 	}
+
+	// (4b) values only known when they are read (expressions, resolver answers) that parse into
+	// objects and lists with numeric names, under a small MaxIdx: the bound on list slots holds
+	// for them as for keys given directly (model: the C02 evaluation machinery)
+	g.Wrap = "CDyn7"
+	save := c08Mode
+	c08Mode = true
+	numNames := []string{"0", "1", "3", "7", "8", "9", "12", "500", "900", "1024", "1025", "l.500", "l.9", "l.3", "l.8", "x.2.900", "k"}
+	for i := 0; i < n/2+4; i++ {
+		mx := []int64{3, 8, 8, 16, 1024}[r.Intn(5)]
+		val := func() string {
+			nm := numNames[r.Intn(len(numNames))]
+			switch r.Intn(6) {
+			case 0:
+				return fmt.Sprintf("{%s: ${n}}", nm)
+			case 1:
+				return fmt.Sprintf("{%s: v, %s: w}", nm, numNames[r.Intn(len(numNames))])
+			case 2:
+				return fmt.Sprintf("[{%s: 1}, ${n}]", nm)
+			case 3:
+				return "${n},${n},${n},${n},${n}"
+			case 4:
+				return fmt.Sprintf("{l: [a, b], %s: c}", nm)
+			default:
+				return fmt.Sprintf("${r%d}", r.Intn(3))
+			}
+		}
+		s := c02Setup{MaxIdx: mx, Root: map[string]interface{}{"n": uint64(r.Intn(5)), "a": val(), "b": val()}}
+		if r.Bool() {
+			s.Root["c"] = "${a}"
+		}
+		rt := resolverTable{}
+		for k := 0; k < 3; k++ {
+			nm := numNames[r.Intn(len(numNames))]
+			txt := []string{fmt.Sprintf("{%s: true}", nm), fmt.Sprintf("{%q: true}", nm), "[1,2,3,4,5,6,7,8,9,10]", fmt.Sprintf("{l: {%s: x}}", nm), "plain"}[r.Intn(5)]
+			rt[fmt.Sprintf("r%d", k)] = struct {
+				Val string `json:"val"`
+				Cfg int    `json:"cfg"`
+			}{txt, r.Intn(2)}
+		}
+		s.Resolvers = []resolverTable{rt}
+		c02Cases(g, s, "maxidx", fmt.Sprintf("maxidx=%d", mx))
+	}
+	c08Mode = save
+	g.Wrap = ""
 
 	// (5) flag values
 	fpieces := []string{"a", "b", ".", "=", "[", "]", "{", "}", ",", ":", "\"", "'", "-1", "0", "99999999999999999999", " ", "$", "{a}", "\\"}
